@@ -38,6 +38,9 @@ func c05Attr(kind int, v string) (string, any) {
 	case 2:
 		return "healthcheck", map[string]any{"interval": "1s", "timeout": v + "s"}
 	case 3:
+		if v == "2" {
+			return "cap_add", []any{"C" + v, "D" + v}
+		}
 		return "cap_add", []any{"C" + v}
 	case 4:
 		return "command", []any{"run", v}
@@ -70,6 +73,17 @@ func VerifC05SameFile() {
 		return s
 	}
 	a, b, c, d := mkSvc("a"), mkSvc("b"), mkSvc("c"), mkSvc("d")
+	// e is a second child of the intermediate b, with the same attribute kind as a
+	e := map[string]any{"image": "ie"}
+	for k, v := range a {
+		if k != "image" {
+			e[k] = c05Clone(v)
+		}
+	}
+	if l, ok := e["cap_add"].([]any); ok && len(l) > 0 {
+		e["cap_add"] = []any{"E"}
+	}
+	e["extends"] = "b"
 	a["extends"] = map[string]any{"service": "b"}
 	baseName := "b"
 	if long {
@@ -78,7 +92,7 @@ func VerifC05SameFile() {
 	}
 	d["extends"] = map[string]any{"service": baseName}
 	build := func() map[string]any {
-		return map[string]any{"a": c05Clone(a), "b": c05Clone(b), "c": c05Clone(c), "d": c05Clone(d)}
+		return map[string]any{"a": c05Clone(a), "b": c05Clone(b), "c": c05Clone(c), "d": c05Clone(d), "e": c05Clone(e)}
 	}
 	// reference: compose ExtendService bottom-up
 	ext := func(base, own map[string]any) map[string]any {
@@ -103,7 +117,8 @@ func VerifC05SameFile() {
 	} else {
 		rd = ext(rb, d)
 	}
-	vrtAssume(ra != nil && rd != nil && rb != nil)
+	re := ext(rb, e)
+	vrtAssume(ra != nil && rd != nil && rb != nil && re != nil)
 
 	got, err := c05Run(build())
 	vrtObserve("err", err != nil)
@@ -114,6 +129,7 @@ func VerifC05SameFile() {
 	vrtObserve("a", got["a"])
 	vrtAssert("a-is-base-then-own", vrtDeepEqual(got["a"], any(ra)))
 	vrtAssert("d-is-base-then-own", vrtDeepEqual(got["d"], any(rd)))
+	vrtAssert("e-is-base-then-own", vrtDeepEqual(got["e"], any(re)))
 	vrtAssert("b-resolved", vrtDeepEqual(got["b"], any(rb)))
 	vrtAssert("root-base-untouched", vrtDeepEqual(got["c"], any(rc)))
 	_, hasExt := got["a"].(map[string]any)["extends"]
@@ -198,6 +214,23 @@ func VerifC05OtherFile() {
 	present := vrtChoice("filePresent", 2) == 1
 	if present {
 		vrtYamlFile(root+"/w/other/compose.yaml", other)
+	}
+	if present && vrtChoice("homonymChain", 2) == 1 {
+		// compose.yaml:web -> other/compose.yaml:web -> third/compose.yaml:web : same base file name and the
+		// same service name at every link, no cycle
+		vrtYamlFile(root+"/w/third/compose.yaml", map[string]any{"services": map[string]any{"web": map[string]any{"image": "third", "build": map[string]any{"context": "./t"}}}})
+		other["services"].(map[string]any)["web"] = map[string]any{"extends": map[string]any{"file": "../third/compose.yaml", "service": "web"}, "hostname": "mid"}
+		vrtYamlFile(root+"/w/other/compose.yaml", other)
+		m, err := tcLoad(nil, nil, map[string]any{"services": map[string]any{"web": map[string]any{"extends": map[string]any{"file": "other/compose.yaml", "service": "web"}, "user": "u"}}})
+		vrtObserve("err", err != nil)
+		vrtAssert("acyclic-homonym-chain-loads", err == nil)
+		if err == nil {
+			s := tcSvc(m, "web")
+			vrtAssert("homonym-chain-values", s["image"] == any("third") && s["hostname"] == any("mid") && s["user"] == any("u"))
+			b, _ := s["build"].(map[string]any)
+			vrtAssert("homonym-chain-path-anchored-at-third", b["context"] == any(root+"/w/third/t"))
+		}
+		return
 	}
 	target := []string{"x", "b", "zz"}[vrtChoice("target", 3)]
 	main := map[string]any{"services": map[string]any{
